@@ -182,6 +182,29 @@ func (g *FG) NodeOf(n ast.Node) *GNode {
 			}
 		}
 	}
+	if best != nil {
+		return best
+	}
+	// a body that contains expanded helpers mixes nodes from several places of the source: positions do not nest there, so
+	// containment alone decides and the innermost vertex is the one with the fewest nodes
+	size := func(r ast.Node) int {
+		k := 0
+		ast.Inspect(r, func(m ast.Node) bool {
+			if m != nil {
+				k++
+			}
+			return true
+		})
+		return k
+	}
+	bestSize := 0
+	for _, x := range g.Nodes {
+		if x.N != nil && containsNoLit(x.N, n) {
+			if s := size(x.N); best == nil || s < bestSize {
+				best, bestSize = x, s
+			}
+		}
+	}
 	return best
 }
 
